@@ -17,6 +17,12 @@ mod spec;
 
 use json::J;
 
+/// reduced sizes for runs under an interpreter (Miri): set by --small
+pub static SMALL: std::sync::atomic::AtomicBool = std::sync::atomic::AtomicBool::new(false);
+pub fn small() -> bool {
+    SMALL.load(std::sync::atomic::Ordering::Relaxed)
+}
+
 pub struct Args {
     pub prop: String,
     pub tier: String,
@@ -63,6 +69,7 @@ fn parse_args() -> Args {
             "--stage" => a.stage = it.next(),
             "--threads" => a.threads = it.next().expect("--threads value").parse().expect("threads"),
             "--scale" => a.scale = it.next().expect("--scale value").parse().expect("scale"),
+            "--small" => SMALL.store(true, std::sync::atomic::Ordering::Relaxed),
             p if a.prop.is_empty() => a.prop = p.to_string(),
             other => panic!("unknown argument {}", other),
         }
